@@ -82,6 +82,8 @@ enum {
     V_DEAD_EARLY,           /* a pipe destroyed while the application holds its reference */
     V_SUPER_FIRST,          /* the super-pipe died before one of its sub-pipes */
     V_STRUCTURE,            /* sub_get_super / iterate_sub do not tell the truth */
+    V_ORDER,                /* a pass-through lane delivered a buffer twice or out of order */
+    V_PAYLOAD,              /* a pass-through lane changed the payload */
 };
 
 static const char *class_name(int cls)
@@ -96,6 +98,8 @@ static const char *class_name(int cls)
     case V_DEAD_EARLY: return "dead_while_referenced";
     case V_SUPER_FIRST: return "super_dead_before_sub";
     case V_STRUCTURE: return "family_structure";
+    case V_ORDER: return "reordered_or_duplicated";
+    case V_PAYLOAD: return "payload_changed";
     default: return NULL;
     }
 }
@@ -127,22 +131,24 @@ enum { K_BLOCK = 0, K_PIC, K_S16, K_S32, K_F32P, K_VOID, K__N };
 enum { SA_VOID = 0, SA_FLOW };
 enum { SUB_VOID = 0, SUB_FLOW, SUB_GRID };
 struct fam { const char *name; struct upipe_mgr *(*mgr_alloc)(void); int super_alloc, super_def, sub_alloc;
-             int only_def; /* -1: any flow definition; else the only kind the family is made for (it does not validate) */ };
+             int only_def; /* -1: any flow definition; else the only kind the family is made for (it does not validate) */
+             int lanes;    /* C05: 1 = what goes into a sub-pipe comes out of it, in order, unchanged (it may be held or
+                            * dropped for dates); 2 = what goes into the super-pipe comes out of every sub-pipe likewise */ };
 static const struct fam fams[] = {
-    { "dup", upipe_dup_mgr_alloc, SA_VOID, 0, SUB_VOID, -1 },
-    { "even", upipe_even_mgr_alloc, SA_VOID, 0, SUB_VOID, -1 },
-    { "play", upipe_play_mgr_alloc, SA_VOID, 0, SUB_VOID, -1 },
-    { "trickplay", upipe_trickp_mgr_alloc, SA_VOID, 0, SUB_VOID, -1 },
-    { "dejitter", upipe_dejitter_mgr_alloc, SA_VOID, 0, SUB_VOID, -1 },
-    { "audiocont", upipe_audiocont_mgr_alloc, SA_FLOW, 3, SUB_VOID, -1 },
-    { "videocont", upipe_videocont_mgr_alloc, SA_VOID, 0, SUB_VOID, -1 },
-    { "audio_merge", upipe_audio_merge_mgr_alloc, SA_FLOW, 3, SUB_VOID, 3 },
-    { "audio_split", upipe_audio_split_mgr_alloc, SA_VOID, 0, SUB_FLOW, -1 },
-    { "grid", upipe_grid_mgr_alloc, SA_VOID, 0, SUB_GRID, -1 },
-    { "blit", upipe_blit_mgr_alloc, SA_VOID, 0, SUB_VOID, -1 },
-    { "sync", upipe_sync_mgr_alloc, SA_VOID, 0, SUB_VOID, -1 },
-    { "subpic_schedule", upipe_subpic_schedule_mgr_alloc, SA_VOID, 0, SUB_VOID, -1 },
-    { "stream_switcher", upipe_stream_switcher_mgr_alloc, SA_VOID, 0, SUB_VOID, -1 },
+    { "dup", upipe_dup_mgr_alloc, SA_VOID, 0, SUB_VOID, -1, 2 },
+    { "even", upipe_even_mgr_alloc, SA_VOID, 0, SUB_VOID, -1, 1 },
+    { "play", upipe_play_mgr_alloc, SA_VOID, 0, SUB_VOID, -1, 1 },
+    { "trickplay", upipe_trickp_mgr_alloc, SA_VOID, 0, SUB_VOID, -1, 1 },
+    { "dejitter", upipe_dejitter_mgr_alloc, SA_VOID, 0, SUB_VOID, -1, 1 },
+    { "audiocont", upipe_audiocont_mgr_alloc, SA_FLOW, 3, SUB_VOID, -1, 0 },
+    { "videocont", upipe_videocont_mgr_alloc, SA_VOID, 0, SUB_VOID, -1, 0 },
+    { "audio_merge", upipe_audio_merge_mgr_alloc, SA_FLOW, 3, SUB_VOID, 3, 0 },
+    { "audio_split", upipe_audio_split_mgr_alloc, SA_VOID, 0, SUB_FLOW, -1, 0 },
+    { "grid", upipe_grid_mgr_alloc, SA_VOID, 0, SUB_GRID, -1, 0 },
+    { "blit", upipe_blit_mgr_alloc, SA_VOID, 0, SUB_VOID, -1, 0 },
+    { "sync", upipe_sync_mgr_alloc, SA_VOID, 0, SUB_VOID, -1, 0 },
+    { "subpic_schedule", upipe_subpic_schedule_mgr_alloc, SA_VOID, 0, SUB_VOID, -1, 0 },
+    { "stream_switcher", upipe_stream_switcher_mgr_alloc, SA_VOID, 0, SUB_VOID, -1, 0 },
 };
 #define NFAMS (int)(sizeof(fams) / sizeof(fams[0]))
 
@@ -179,7 +185,29 @@ static struct sink {
     struct urefcount refcount;
     bool refuse, accepted, plugged;
     unsigned inputs, flow_defs;
+    bool any;
+    uint64_t last_seq;
 } sinks[MAXSLOT];
+
+/* what went in (block payloads only) */
+#define MAXSEQ 128
+static struct { uint64_t hash; unsigned size; bool block; } sent_rec[MAXSLOT][MAXSEQ];
+static uint64_t payload_hash(struct uref *uref, unsigned *size_p)
+{
+    size_t size = 0;
+    uint64_t h = 1469598103934665603ULL;
+    *size_p = 0;
+    if (uref->ubuf == NULL || !ubase_check(uref_block_size(uref, &size)))
+        return 0;
+    uint8_t buf[256];
+    if (size > sizeof(buf))
+        size = sizeof(buf);
+    if (size && ubase_check(uref_block_extract(uref, 0, (int)size, buf)))
+        for (size_t i = 0; i < size; i++)
+            h = (h ^ buf[i]) * 1099511628211ULL;
+    *size_p = (unsigned)size;
+    return h;
+}
 
 static struct uprobe root;
 static struct urefcount root_refcount;
@@ -282,6 +310,23 @@ static void sink_input(struct upipe *upipe, struct uref *uref, struct upump **up
         else if (!k->accepted)
             sim_violation(V_NO_FLOW_DEF, "%s sends a buffer to an output that %s", slot_name(i),
                           k->refuse ? "refused its flow definition" : "was given no flow definition");
+    }
+    uint64_t sq = 0;
+    int src = fams[fam].lanes == 2 ? 0 : i;
+    if (fams[fam].lanes && plan->cfg[CFG_PROP] == 5 && checking() && !fault_fired &&
+        ubase_check(uref_attr_get_unsigned(uref, &sq, UDICT_TYPE_UNSIGNED, "x.seq")) && sq < MAXSEQ) {
+        if (k->any && sq <= k->last_seq)
+            sim_violation(V_ORDER, "%s: buffer %" PRIu64 " comes out %s buffer %" PRIu64, slot_name(i), sq,
+                          sq == k->last_seq ? "twice, like" : "after", k->last_seq);
+        else if (sent_rec[src][sq].block) {
+            unsigned size = 0;
+            uint64_t h = payload_hash(uref, &size);
+            if (size != sent_rec[src][sq].size || h != sent_rec[src][sq].hash)
+                sim_violation(V_PAYLOAD, "%s: buffer %" PRIu64 " went in with %u octets and comes out with %u, or its content changed",
+                              slot_name(i), sq, sent_rec[src][sq].size, size);
+        }
+        k->any = true;
+        k->last_seq = sq;
     }
     uref_free(uref);
 }
@@ -712,6 +757,11 @@ static void do_op(const struct sim_op *op)
             if (x & 32) uref_flow_set_random(uref);
             if (x & 64) uref_clock_set_dts_orig(uref, t);
             if (x & 128) uref_pic_set_progressive(uref);
+            if (s->seq < MAXSEQ) {
+                uref_attr_set_unsigned(uref, s->seq, UDICT_TYPE_UNSIGNED, "x.seq");
+                sent_rec[i][s->seq].block = s->kind == K_BLOCK;
+                sent_rec[i][s->seq].hash = payload_hash(uref, &sent_rec[i][s->seq].size);
+            }
             s->seq++;
             SIM_PROBE("fam_input");
             upipe_input(s->handle, uref, NULL);
@@ -864,6 +914,11 @@ static void gen(const char *pr, struct sim_rng *r, struct sim_plan *p)
 {
     p->cfg[CFG_PROP] = atoi(pr + 1);
     p->cfg[CFG_FAM] = sim_rng_below(r, NFAMS);
+    if (p->cfg[CFG_PROP] == 5) {
+        /* the families with pass-through lanes */
+        static const int laned[] = { 0, 1, 2, 3, 4 };
+        p->cfg[CFG_FAM] = laned[sim_rng_below(r, 5)];
+    }
     p->cfg[CFG_POOL] = sim_rng_below(r, 5);
     p->cfg[CFG_FAULTS] = sim_rng_chance(r, 1, 3);
     p->cfg[CFG_SUPERDEF] = sim_rng_below(r, 256);
@@ -901,7 +956,7 @@ static void gen(const char *pr, struct sim_rng *r, struct sim_plan *p)
     }
 }
 
-static const char *const props[] = { "C01", "C04", NULL };
+static const char *const props[] = { "C01", "C04", "C05", NULL };
 const struct sim_engine sim_engine = {
     .name = "efam", .props = props, .gen = gen, .run = run,
     .class_name = class_name, .op_name = op_name,
